@@ -199,6 +199,16 @@ func TestWorker(t *testing.T) {
 				v = mine // several oracles may have fired: this property's own one counts here
 			}
 			if v.Has(prop) && knownOracles[v.Oracle] {
+				// a recorded finding; the run may ALSO have met something that is not recorded
+				for _, o := range res.All {
+					if o != v && o.Has(prop) && !knownOracles[o.Oracle] {
+						out.KnownSeen[v.Oracle]++
+						v = o
+						break
+					}
+				}
+			}
+			if v.Has(prop) && knownOracles[v.Oracle] {
 				// a recorded, unrepaired defect: count it, keep one minimised example, carry on
 				out.KnownSeen[v.Oracle]++
 				if out.KnownSeen[v.Oracle] == 1 {
